@@ -361,7 +361,9 @@ const farClock = 1000000
 
 // farInstant: the instants far away from the session that op lines name instead of a due clock, with the clock the
 // model uses for them (0: long past, due at once and before everything; > farClock: never reached).
-func farInstant(tok string) (time.Time, int, bool) {
+// ref: the reference instant of the case for "now + 300 years" - two `n300` tasks of one case are the same instant (a
+// tie for the heap, as for the model), not two instants microseconds apart.
+func farInstant(tok string, ref time.Time) (time.Time, int, bool) {
 	switch tok {
 	case "z":
 		return time.Time{}, 0, true
@@ -370,7 +372,7 @@ func farInstant(tok string) (time.Time, int, bool) {
 	case "y2300":
 		return time.Date(2300, 1, 1, 0, 0, 0, 0, time.UTC), farClock + 1, true
 	case "n300":
-		return time.Now().AddDate(300, 0, 0), farClock + 3, true
+		return ref.AddDate(300, 0, 0), farClock + 3, true
 	case "y9999":
 		return time.Date(9999, 12, 31, 23, 59, 59, 0, time.UTC), farClock + 5, true
 	case "u62":
@@ -657,7 +659,7 @@ func (w *world) exec(f []string, now int) string {
 			t.dueClock += now
 		}
 		t.due = w.at(t.dueClock)
-		if inst, clk, ok := farInstant(farTok); ok && t.after == 0 {
+		if inst, clk, ok := farInstant(farTok, w.base); ok && t.after == 0 {
 			t.due, t.dueClock, t.far = inst, clk, true
 		}
 		w.mu.Lock()
@@ -2481,7 +2483,7 @@ func runQSeqLine(r *rec, line string) {
 			// 9999-12-31, time.Unix(1<<62, 0)
 			if len(tok) == 3 && (tok[1] == 'p' || tok[1] == 'f') {
 				name := map[string]string{"p0": "z", "p1": "y1600", "f0": "y2300", "f1": "n300", "f2": "y9999", "f3": "u62"}[tok[1:]]
-				if inst, _, ok := farInstant(name); ok {
+				if inst, _, ok := farInstant(name, base); ok {
 					due = inst
 					farFuture[v] = tok[1] == 'f'
 				}
@@ -2782,7 +2784,7 @@ func runQSess(r *rec, sub uint64, producers, consumers, m int, fl string, reps i
 		var farItems []*qItem
 		addFar := func() {
 			for _, name := range []string{"y2300", "n300", "y9999", "u62"}[:2+rep%3] {
-				inst, _, _ := farInstant(name)
+				inst, _, _ := farInstant(name, time.Now())
 				imu.Lock()
 				x++
 				it := &qItem{x: x, due: inst, far: true}
